@@ -158,6 +158,20 @@ func EnrichWorkload(r *Rand, w *Workload, scratch string) {
 		}
 		notes = append(notes, "extra-templates")
 	}
+	// template overrides: a directory of user templates parsed next to the built-in ones
+	if r.Chance(1, 4) {
+		for li := range w.Languages {
+			l := &w.Languages[li]
+			if l.Name == "jsonschema" || l.Name == "openapi" || !r.Chance(2, 3) {
+				continue
+			}
+			dir := "tpl/overrides_" + l.Name
+			w.Files[dir+"/custom.tmpl"] = "{{ define \"verif_custom_block\" }}custom {{ . }}{{ end }}\n"
+			w.Files[dir+"/nested/other.tmpl"] = "{{- define \"verif_other_block\" -}}other{{- end -}}\n"
+			l.Flags["overrides_templates"] = "[" + yq("%__config_dir%/"+dir) + "]"
+		}
+		notes = append(notes, "template-overrides")
+	}
 	if r.Chance(1, 4) {
 		w.RepoTpl = "tpl/repo"
 		for _, l := range w.Languages {
